@@ -56,6 +56,12 @@ Theorem C17_switch_changes_nothing_observable : forall s w b,
   opts (tr (step s (OTrainSwitch w b))) = opts (tr s) /\ pe (step s (OTrainSwitch w b)) = pe s.
 Proof. exact switch_keeps_opts. Qed.
 
+(* observer calls in the history (export(), export(add_bn=False), summary(), get_cost, str(model)) are the identity of the
+   model state (this is what the correspondence run checks against the code after every such call), hence every theorem
+   above holds verbatim for histories that contain them; they are option-neutral by computation *)
+Theorem C17_observers_in_history : forall c s k, step s (OObserve k) = s /\ keeps_opts c (OObserve k) = true.
+Proof. exact observers_in_history. Qed.
+
 (* which observation needs which option.  PIT: only the cost reads discrete_cost *)
 Theorem C17_pit_resume_out_summary_export : forall c ops n, c_meth c = PIT ->
   let s := run (fresh c) ops in
@@ -124,6 +130,7 @@ Print Assumptions C17_resume_equiv_neutral_history.
 Print Assumptions C17_mps_temperature_persisted.
 Print Assumptions C17_observations_ignore_trainability.
 Print Assumptions C17_switch_changes_nothing_observable.
+Print Assumptions C17_observers_in_history.
 Print Assumptions C17_pit_resume_out_summary_export.
 Print Assumptions C17_mps_eval_resume.
 Print Assumptions C17_resume_after_option_change_refuted.
